@@ -176,49 +176,96 @@ func (fr *Frame) frameLookupNow(extra map[string]bound, nowp **State) func(strin
 				return bound{fr.vc.load(lst, fr.val(a), pt), pt}, true
 			}
 		}
-		// phi of the innermost enclosing loop first
-		var cands []*ssa.Phi
-		for _, b := range fr.fn.Blocks {
-			for _, in := range b.Instrs {
-				phi, ok := in.(*ssa.Phi)
-				if !ok {
-					break
-				}
-				if phi.Comment == name {
-					if _, have := fr.vals[phi]; have {
-						cands = append(cands, phi)
-					}
-				}
-			}
-		}
-		if fr.curLoop != nil {
-			for _, phi := range cands {
-				if phi.Block() == fr.curLoop.header {
-					return bound{fr.vals[phi], phi.Type()}, true
-				}
-			}
-		}
-		if v, ok := fr.names[name]; ok && !fr.ambig[name] {
-			if _, have := fr.vals[v]; have {
-				return bound{fr.val(v), v.Type()}, true
-			}
-			if _, isC := v.(*ssa.Const); isC {
-				return bound{fr.val(v), v.Type()}, true
-			}
-		}
-		if len(cands) == 1 {
-			return bound{fr.vals[cands[0]], cands[0].Type()}, true
-		}
-		if len(cands) > 1 {
-			// prefer loop-header phis
-			for _, phi := range cands {
-				if fr.loops[phi.Block()] != nil {
-					return bound{fr.vals[phi], phi.Type()}, true
-				}
-			}
+		if v, ok := fr.resolveLocal(name); ok {
+			return bound{fr.val(v), v.Type()}, true
 		}
 		return bound{}, false
 	}
+}
+
+// resolveLocal: the SSA value a source-level local variable name denotes at the point of
+// evaluation (loop header while a loop contract is evaluated, function exit otherwise): among
+// the values the debug information attaches to the name, the one whose definition dominates
+// the point and is closest to it.
+func (fr *Frame) resolveLocal(name string) (ssa.Value, bool) {
+	var cands []ssa.Value
+	seen := map[ssa.Value]bool{}
+	for _, b := range fr.fn.Blocks {
+		for _, in := range b.Instrs {
+			switch d := in.(type) {
+			case *ssa.DebugRef:
+				if id, ok := d.Expr.(*ast.Ident); ok && id.Name == name && !d.IsAddr && !seen[d.X] {
+					seen[d.X] = true
+					cands = append(cands, d.X)
+				}
+			case *ssa.Phi:
+				if d.Comment == name && !seen[d] {
+					seen[d] = true
+					cands = append(cands, d)
+				}
+			}
+		}
+	}
+	if len(cands) == 0 {
+		return nil, false
+	}
+	var points []*ssa.BasicBlock
+	if fr.curLoop != nil {
+		points = []*ssa.BasicBlock{fr.curLoop.header}
+	} else {
+		for _, b := range fr.fn.Blocks {
+			if len(b.Instrs) > 0 {
+				if _, ok := b.Instrs[len(b.Instrs)-1].(*ssa.Return); ok && b != fr.fn.Recover {
+					points = append(points, b)
+				}
+			}
+		}
+	}
+	blockOf := func(v ssa.Value) *ssa.BasicBlock {
+		if in, ok := v.(ssa.Instruction); ok {
+			return in.Block()
+		}
+		return nil // constants, parameters: available everywhere
+	}
+	var best ssa.Value
+	var bestB *ssa.BasicBlock
+	haveBest := false
+	for _, c := range cands {
+		if _, isC := c.(*ssa.Const); !isC {
+			if _, have := fr.vals[c]; !have {
+				continue
+			}
+		}
+		cb := blockOf(c)
+		ok := true
+		if cb != nil {
+			for _, p := range points {
+				if !cb.Dominates(p) {
+					ok = false
+				}
+			}
+		}
+		if !ok {
+			continue
+		}
+		if !haveBest {
+			best, bestB, haveBest = c, cb, true
+			continue
+		}
+		// prefer the definition closest to the point: the one dominated by the other
+		switch {
+		case bestB == nil && cb != nil:
+			best, bestB = c, cb
+		case bestB != nil && cb != nil && bestB != cb && bestB.Dominates(cb):
+			best, bestB = c, cb
+		case bestB != nil && cb != nil && bestB == cb:
+			// same block: the later instruction wins; phis come first
+			if _, isPhi := c.(*ssa.Phi); !isPhi {
+				best = c
+			}
+		}
+	}
+	return best, haveBest
 }
 
 func (fr *Frame) evalExprText(text string, cur, old *State, extra map[string]bound) (Value, types.Type, error) {
@@ -1021,8 +1068,10 @@ func (ec *evalCtx) evalCall(x *ast.CallExpr) (Value, types.Type) {
 	case "isnew":
 		// isnew(x): the object x refers to (pointer, slice, map, chan) was allocated by this activation
 		v, _ := arg(0)
-		a0 := vc.famName(allocKey, 0)
-		vc.declare(a0, allocSort)
+		if ec.old == nil {
+			ec.fail("isnew() needs a pre-state")
+		}
+		a0 := vc.get(ec.old, allocKey, allocSort)
 		return Value{C: []Term{sAnd(sNot(sSel(a0, v.C[0])), sNot(sEq(v.C[0], "0")))}}, tBool
 	case "arr":
 		v, _ := arg(0)
